@@ -116,7 +116,9 @@ def check(run):
         menus = {0: full, 1: dict(nopfx, prefix=model.ALL_PREFIXES[8:16:3])}
         maxdepth = 2
     else:
-        menus = {0: full, 1: full, 2: {"binary": range(8), "pow": (-1, 2), "root": (2,), "scale": True}}
+        # depth 3 only from states over the four core atoms (meters, seconds, feet, kg) with a reduced menu:
+        # the full depth-3 graph has 155 k states / 393 k transitions (measured) and is out of reach
+        menus = {0: full, 1: full, 2: {"binary": (0, 1), "pow": (2,), "scale": True}}
         maxdepth = 3
     # ---- BFS over the model
     states, order, trans = {}, [], []
@@ -130,7 +132,7 @@ def check(run):
         nxt = []
         menu = menus[depth]
         for st in frontier:
-            if st.leaf:
+            if st.leaf or (depth == 2 and not set(st.mono) <= {0, 1, 2, 4}):
                 continue
             for lab, mono, scale, wrap, expr in successors(atoms, st, menu):
                 if not in_bounds(mono):
